@@ -29,6 +29,9 @@ func PathValues(p protopath.Path, m proto.Message) (protopath.Values, error) {
 			v.Values = append(v.Values, cursor)
 		case protopath.FieldAccessStep:
 			if f, ok := desc.(protoreflect.FieldDescriptor); ok {
+				if f.IsList() {
+					return protopath.Values{}, fmt.Errorf("%d: cursor is at list %v, want an index before a field access", i, f.FullName())
+				}
 				desc = f.Message()
 			}
 			md, ok := desc.(protoreflect.MessageDescriptor)
